@@ -75,10 +75,11 @@ Definition model_shapes : list (string * list string) := [
   ("WakeCommand.Encode", ["bytes OriginAgent"; "u64 CommandID"; "u64 Timestamp"; "bytes Signature"; "ids SeenBy"]);
   ("WakeCommand.SignableBytes", ["bytes OriginAgent"; "u64 CommandID"; "u64 Timestamp"])].
 
-(** inner bounds checks, buffer index/slice expressions and offset computations of every decoder,
-    reader primitive and prefix helper, in source order *)
+(** inner bounds checks (incl. the payload-size limit), buffer index/slice expressions, offset
+    computations and make() calls of every decoder, reader primitive, prefix helper and of
+    FrameReader.Read, in source order *)
 Definition model_bounds : list (string * list string) := [
-  ("Decode", ["if len(buf) < HeaderSize+int(length)"; "slice buf[HeaderSize : HeaderSize+length]"]);
+  ("Decode", ["call DecodeHeader(buf)"; "if len(buf) < HeaderSize+int(length)"; "call make([]byte, length)"; "slice buf[HeaderSize : HeaderSize+length]"]);
   ("DecodeAgentPrefix", ["if len(prefix) < identity.IDSize"; "slice prefix[:identity.IDSize]"]);
   ("DecodeControlRequest", ["if len(buf) < 30"]);
   ("DecodeControlResponse", ["if len(buf) < 12"]);
@@ -86,20 +87,20 @@ Definition model_bounds : list (string * list string) := [
   ("DecodeEncryptedData", ["if len(buf) < 3"]);
   ("DecodeForwardKey", ["if len(prefix) < 1"; "idx prefix[0]"; "if len(prefix) < 1+keyLen"; "slice prefix[1 : 1+keyLen]"]);
   ("DecodeForwardKeyAndTarget", ["if len(prefix) < 1"; "idx prefix[0]"; "if len(prefix) < 1+keyLen"; "slice prefix[1 : 1+keyLen]"; "set targetOffset := 1 + keyLen"; "if len(prefix) < targetOffset+1"; "idx prefix[targetOffset]"; "if len(prefix) < targetOffset+1+targetLen"; "slice prefix[targetOffset+1 : targetOffset+1+targetLen]"]);
-  ("DecodeHeader", ["if len(buf) < HeaderSize"; "idx buf[0]"; "idx buf[1]"; "slice buf[2:6]"; "slice buf[6:14]"]);
+  ("DecodeHeader", ["if len(buf) < HeaderSize"; "idx buf[0]"; "idx buf[1]"; "slice buf[2:6]"; "slice buf[6:14]"; "if length > MaxPayloadSize"]);
   ("DecodeICMPClose", ["if len(buf) < 1"; "idx buf[0]"]);
   ("DecodeICMPEcho", ["if len(buf) < 8"]);
   ("DecodeICMPOpen", ["if len(buf) < 11+EphemeralKeySize"]);
   ("DecodeICMPOpenAck", ["if len(buf) < 8+EphemeralKeySize"]);
   ("DecodeICMPOpenErr", ["if len(buf) < 11"]);
   ("DecodeKeepalive", ["if len(buf) < 8"]);
-  ("DecodeNodeInfo", ["if len(buf) < 5+EphemeralKeySize"; "if r.remaining() < 16"; "if r.remaining() < 9"; "if r.remaining() > 0"; "if r.remaining() > 0"; "for i < listenerCount && r.remaining() > 0"; "if r.remaining() < 1"; "if r.remaining() > 0"; "for i < shellCount && r.remaining() > 0"; "if r.remaining() > 0"; "if r.remaining() > 0"; "if r.remaining() > 0"]);
+  ("DecodeNodeInfo", ["if len(buf) < 5+EphemeralKeySize"; "call make([]string, ipCount)"; "call make([]PeerConnectionInfo, 0, peerCount)"; "if r.remaining() < 16"; "if r.remaining() < 9"; "if r.remaining() > 0"; "if r.remaining() > 0"; "call make([]ForwardListenerInfo, 0, listenerCount)"; "for i < listenerCount && r.remaining() > 0"; "if r.remaining() < 1"; "if r.remaining() > 0"; "call make([]string, 0, shellCount)"; "for i < shellCount && r.remaining() > 0"; "if r.remaining() > 0"; "if r.remaining() > 0"; "if r.remaining() > 0"]);
   ("DecodeNodeInfoAdvertise", ["if len(buf) < 28"; "slice buf[r.offset:]"; "set r.offset += consumed"]);
   ("DecodePath", ["if len(buf) < 1"]);
-  ("DecodePeerHello", ["if len(buf) < 28"]);
-  ("DecodeQueuedState", ["if len(buf) < 8"; "set sleepData := r.buf[r.offset:]"; "slice r.buf[r.offset:]"; "set r.offset += 16 + 8 + 8 + SignatureSize + 1 + len(sleepCmd.SeenBy)*16"; "set wakeData := r.buf[r.offset:]"; "slice r.buf[r.offset:]"]);
-  ("DecodeRouteAdvertise", ["if len(buf) < 28"; "if rd.offset >= len(buf)"; "idx buf[rd.offset]"; "if rd.offset >= len(buf)"; "idx buf[rd.offset]"; "set targetLenOffset := rd.offset + 1 + keyLen"; "if targetLenOffset >= len(buf)"; "idx buf[targetLenOffset]"; "slice buf[rd.offset:]"; "set rd.offset += consumed"]);
-  ("DecodeRouteWithdraw", ["if len(buf) < 26"]);
+  ("DecodePeerHello", ["if len(buf) < 28"; "call make([]string, 0, capLen)"]);
+  ("DecodeQueuedState", ["if len(buf) < 8"; "call make([]RouteAdvertise, 0, r.capFor(routeCount, 28))"; "call make([]RouteWithdraw, 0, r.capFor(withdrawCount, 26))"; "call make([]NodeInfoAdvertise, 0, r.capFor(nodeInfoCount, 28))"; "set sleepData := r.buf[r.offset:]"; "slice r.buf[r.offset:]"; "set r.offset += 16 + 8 + 8 + SignatureSize + 1 + len(sleepCmd.SeenBy)*16"; "set wakeData := r.buf[r.offset:]"; "slice r.buf[r.offset:]"]);
+  ("DecodeRouteAdvertise", ["if len(buf) < 28"; "call make([]Route, routeCount)"; "if rd.offset >= len(buf)"; "idx buf[rd.offset]"; "if rd.offset >= len(buf)"; "idx buf[rd.offset]"; "set targetLenOffset := rd.offset + 1 + keyLen"; "if targetLenOffset >= len(buf)"; "idx buf[targetLenOffset]"; "slice buf[rd.offset:]"; "set rd.offset += consumed"]);
+  ("DecodeRouteWithdraw", ["if len(buf) < 26"; "call make([]Route, routeCount)"]);
   ("DecodeSleepCommand", ["if len(buf) < 16+8+8+SignatureSize+1"]);
   ("DecodeStreamOpen", ["if len(buf) < 13+EphemeralKeySize"; "if r.offset >= len(buf)"; "idx buf[r.offset]"]);
   ("DecodeStreamOpenAck", ["if len(buf) < 11+EphemeralKeySize"]);
@@ -111,8 +112,10 @@ Definition model_bounds : list (string * list string) := [
   ("DecodeUDPOpenAck", ["if len(buf) < 11+EphemeralKeySize"]);
   ("DecodeUDPOpenErr", ["if len(buf) < 11"]);
   ("DecodeWakeCommand", ["if len(buf) < 16+8+8+SignatureSize+1"]);
+  ("FrameReader.Read", ["slice fr.header[:]"; "call DecodeHeader(fr.header[:])"; "slice fr.header[:]"; "call make([]byte, length)"]);
   ("bufferReader.readAgentID", ["if r.err != nil || r.offset+16 > len(r.buf)"; "slice r.buf[r.offset : r.offset+16]"; "set r.offset += 16"]);
-  ("bufferReader.readBytes", ["if r.err != nil || r.offset+n > len(r.buf)"; "slice r.buf[r.offset : r.offset+n]"; "set r.offset += n"]);
+  ("bufferReader.readAgentIDs", ["call make([]identity.AgentID, count)"]);
+  ("bufferReader.readBytes", ["if r.err != nil || r.offset+n > len(r.buf)"; "call make([]byte, n)"; "slice r.buf[r.offset : r.offset+n]"; "set r.offset += n"]);
   ("bufferReader.readEphemeralKey", ["if r.err != nil || r.offset+EphemeralKeySize > len(r.buf)"; "slice r.buf[r.offset : r.offset+EphemeralKeySize]"; "set r.offset += EphemeralKeySize"]);
   ("bufferReader.readString", ["if r.offset+length > len(r.buf)"; "slice r.buf[r.offset : r.offset+length]"; "set r.offset += length"]);
   ("bufferReader.readUint16", ["if r.err != nil || r.offset+2 > len(r.buf)"; "slice r.buf[r.offset:]"; "set r.offset += 2"]);
